@@ -472,6 +472,9 @@ def o_write(inp):
     nontrivial = nsens >= 2 or via != "string"
     if got != exp:
         return ((f"write:{via}:{'stack' if us is not None else 'prepend'}", _short_outcome(got), _short_outcome(exp)), nontrivial, cls)
+    f = args.caller_list_changed()
+    if f:
+        return (f, nontrivial, cls)
     return (None, nontrivial, cls)
 
 
